@@ -277,8 +277,62 @@ def los_oracle(case):
     return None
 
 
-def _run_los(ctx, n):
-    cases = [_gen_los(ctx.rng) for _ in range(n)]
+LOS_EPS = "1/10000000"          # the code's end-point shrink 1e-07, sent to the transcription as an exact rational
+
+
+def _f32(x):
+    return float(np.float32(x))
+
+
+def _los_compare(ctx, case, m, op, R):
+    """three-way comparison for one generated LOS case; returns (nontrivial, skipped)"""
+    L = _los_lengths(case)
+    nlos, npix = R.shape
+    # (a) Lean-internal: transcription == independent segment model on the same parameter interval (exact, generic lines only);
+    #     the transcribed clipping agrees with clipBox (always)
+    for r, ln in enumerate(m["los"]):
+        for key in ("eps", "zero"):
+            o = ln[key]
+            if not o["clip"]:
+                ctx.disagree(case, {"line": r, "which": key, "clipT": [o["dmin"], o["dmax"]]}, {"clipBox": "differs"},
+                             "LOS: transcribed clipping (d0/d1/dmin/dmax) differs from the independent clipBox")
+            if o["generic"]:
+                ctx.stat("los-refine-compared:" + key)
+                if sorted(map(tuple, o["trav"])) != sorted(map(tuple, o["seg"])):
+                    ctx.disagree(case, {"line": r, "which": key, "trav": o["trav"]}, {"seg": o["seg"]},
+                                 "LOS: transcription of _comp_traverse differs from the independent segment model (generic line)")
+            else:
+                ctx.stat("los-refine-skipped-nongeneric:" + key)
+    # (b) code vs transcription (eps = 1e-7): same pixels, float32 of the exact weight
+    if m["init"] == "ValueError":
+        ctx.disagree(case, {"built": True}, {"init": "ValueError"}, "LOS transcription emits an out-of-grid pixel, the code does not")
+        return False, False
+    T = np.zeros((nlos, npix))
+    for r, c, w in m["init"]:
+        T[r, c] += _f32(float(Fraction(w)) * L[r])
+    Lc = np.array(L)[:, None]
+    tolT = 2.5e-7 * np.abs(T) + 1e-10 * Lc
+    if np.any(np.abs(R - T) > tolT):
+        i = np.unravel_index(int(np.argmax(np.abs(R - T) - tolT)), R.shape)
+        ctx.disagree(case, {"entry": [int(i[0]), int(i[1])], "code": float(R[i])}, {"transcription": float(T[i])},
+                     "LOSResponse (sigma=0): COO weights vs transcription of _comp_traverse at eps=1e-7 (float32 of the exact value)")
+    # (c) code vs independent model on the whole clipped segment (class T: the 1e-7 shrink is inside the tolerance)
+    M = np.zeros((nlos, npix))
+    for r, c, re, im in m["modes"]["1"]:
+        M[r, c] += float(Fraction(re)) * L[r]
+    tol = 2.5e-7 * Lc + 2.5e-7 * np.abs(M) + 1e-10 * Lc
+    if np.any(np.abs(R - M) > tol):
+        i = np.unravel_index(int(np.argmax(np.abs(R - M) - tol)), R.shape)
+        ctx.disagree(case, {"entry": [int(i[0]), int(i[1])], "code": float(R[i])}, {"model": float(M[i])},
+                     "LOSResponse (sigma=0): pixel weights vs independent exact traversal model (class T)")
+    return bool(np.any(M != 0)), False
+
+
+def _run_los(ctx, n, gens=None):
+    gens = gens or [_gen_los]
+    cases = [gens[i % len(gens)](ctx.rng) for i in range(n)]
+    for c in cases:
+        c["eps"] = LOS_EPS
     outs = ctx.model(DRIVER, cases)
     for case, m in zip(cases, outs):
         ctx.stat("cls:LOSResponse")
@@ -294,24 +348,8 @@ def _run_los(ctx, n):
             ctx.case(case, False)
             ctx.disagree(case, {"built": True}, m, "LOS model rejected a case the code accepts")
             continue
-        L = _los_lengths(case)
-        M = np.zeros_like(R)
-        small = False
-        for r, c, re, im in m["modes"]["1"]:
-            w = float(Fraction(re)) * L[r]
-            if 0 < w < 1e-5:
-                small = True
-            M[r, c] += w
-        if small:
-            ctx.skipped_near_threshold += 1
-            ctx.case(case, False)
-            continue
-        ctx.case(case, bool(np.any(M != 0)))
-        tol = 3e-6 * np.array(L)[:, None] + 1e-6 * np.abs(M) + 1e-9
-        if np.any(np.abs(R - M) > tol):
-            i = np.unravel_index(int(np.argmax(np.abs(R - M) - tol)), R.shape)
-            ctx.disagree(case, {"entry": [int(i[0]), int(i[1])], "code": float(R[i])}, {"model": float(M[i])},
-                         "LOSResponse (sigma=0): pixel weights vs exact traversal model (class T)")
+        nontrivial, _ = _los_compare(ctx, case, m, op, R)
+        ctx.case(case, nontrivial)
         r = los_oracle(case)
         if r is not None:
             ctx.counterexample(case, r[0], r[1])
